@@ -147,7 +147,7 @@ class Check:
             "checker_cmd": "bin/check %s --tier %s" % (self.prop, self.tier),
             "trusted_base": self.trusted_base or ["clang 14 front end (parser, types, constant folding)",
                                                   "the checker in /verif/valib"],
-            "explanation": self.explanation,
+            "explanation": self.explanation or "static rules over the parsed program; see per_rule and samples",
             "exhaustive": True,
             "per_rule": rules,
             "analysed": self.analysed,
